@@ -269,8 +269,13 @@ static void run_c17_ranks(void)
         a->body = rank_body;
         a->nops = plan_range(1, maxops);
         sim_note("[%s", wl_actor_kind_names[a->kind]);
+        /* in some runs one actor does nothing but read the stream count, so that transient
+         * states of the count during the others' creates and frees are looked at often */
+        int poller = n >= 2 && i == n - 1 && plan_n(3) == 0;
+        if (poller)
+            a->nops = maxops;
         for (int j = 0; j < a->nops; j++) {
-            a->ops[j] = (int)plan_n(R_N);
+            a->ops[j] = poller ? R_GET_NUM : (int)plan_n(R_N);
             a->args[j] = (int)plan_n(1024);
             sim_note(" %s", rn[a->ops[j]]);
         }
